@@ -1,6 +1,6 @@
 use alloc::vec::Vec;
 
-use hashbrown::HashMap;
+use hashbrown::{HashMap, HashSet};
 use p3_field::Field;
 
 use super::analysis::AluKey;
@@ -14,6 +14,8 @@ use crate::types::WitnessId;
 pub(super) struct Deduplicator {
     rewrite: HashMap<WitnessId, WitnessId>,
     seen: HashMap<AluKey, WitnessId>,
+    /// Witnesses referenced (read or written) by an op that has already been emitted.
+    referenced: HashSet<WitnessId>,
 }
 
 impl Deduplicator {
@@ -21,6 +23,38 @@ impl Deduplicator {
         Self {
             rewrite: HashMap::new(),
             seen: HashMap::new(),
+            referenced: HashSet::new(),
+        }
+    }
+
+    /// Records every witness an emitted op reads or writes.
+    fn mark_referenced<F: Field>(&mut self, op: &Op<F>) {
+        match op {
+            Op::Const { out, .. } | Op::Public { out, .. } => {
+                self.referenced.insert(*out);
+            }
+            Op::Alu {
+                a,
+                b,
+                c,
+                out,
+                intermediate_out,
+                ..
+            } => {
+                self.referenced.extend([*a, *b, *out]);
+                self.referenced.extend(c.iter().chain(intermediate_out.iter()));
+            }
+            Op::Hint {
+                inputs, outputs, ..
+            } => {
+                self.referenced.extend(inputs.iter().chain(outputs.iter()));
+            }
+            Op::NonPrimitiveOpWithExecutor {
+                inputs, outputs, ..
+            } => {
+                self.referenced
+                    .extend(inputs.iter().chain(outputs.iter()).flatten());
+            }
         }
     }
 
@@ -36,12 +70,20 @@ impl Deduplicator {
 
             if let Some((dup_out, canonical)) = self.detect_duplicate(&op) {
                 let root = canonical.resolve(&self.rewrite);
-                if dup_out != root {
-                    self.rewrite.insert(dup_out, root);
+                if dup_out == root {
+                    continue;
                 }
-                continue;
+                // The duplicate's output slot is already used by an emitted op (it is aliased,
+                // through `connect`, to an input or to another op's output). Those ops keep
+                // referring to it, so the op must stay as the constraint tying that slot to
+                // the canonical value; only an otherwise unused slot can be rewritten away.
+                if !self.referenced.contains(&dup_out) {
+                    self.rewrite.insert(dup_out, root);
+                    continue;
+                }
             }
 
+            self.mark_referenced(&op);
             result.push(op);
         }
 
